@@ -477,6 +477,43 @@ class OptionValues(Part):
         return res
 
 
+NAMES = ["cafe\u0301.cfg", "caf\u00e9.cfg", "Zu\u0308rich/core.cfg", "Z\u00fcrich/core.cfg", "\u212bngstrom.cfg", "\u2126.cfg",
+         "a..b.cfg", "-n.cfg", "trailing.", "sp ace /x.cfg", "%41.cfg", "back\\slash.cfg", "x" * 200 + ".cfg",
+         "UPPER.CFG", "upper.cfg", "noext", "out/in.cfg", "~tilde", "\u4e2d\u6587.cfg", "tab\there.cfg", "quo'te\".cfg"]
+for _i, _n in enumerate(NAMES):
+    CONTENT[_n] = "hostname n%d\n ip address 10.1.2.%d 255.255.255.0\npassword s3cretN%d\n" % (_i, _i + 1, _i % 3)
+
+
+class Names(Part):
+    name = "unusual_file_and_directory_names"
+    desc = "names in decomposed and composed Unicode side by side, compatibility characters, dots, dashes, blanks, quotes, very long names, a directory called like the output: one output per input at exactly the same relative path"
+
+    def __init__(self, tier, seed):
+        self.tier, self.seed = tier, seed
+
+    def cases(self):
+        trees = [[n] for n in NAMES] + [list(NAMES), NAMES[:6], NAMES[6:], ["a.cfg"] + NAMES[:4] + ["sub/x.cfg"]]
+        return [{"tree": t, "order": o, "feat": "pwd+ip"} for t in trees for o in ("sorted", "reversed")]
+
+    def run(self, case):
+        res = Res()
+        base = seams.scratch_dir("c16n")
+        n = [0]
+
+        def fresh():
+            n[0] += 1
+            d = os.path.join(base, "r%d" % n[0])
+            os.makedirs(d)
+            return d
+
+        try:
+            judge(res, case["tree"], {}, "absent", case["order"], case["feat"], case, fresh)
+            res.samples.append({"tree": [repr(t)[:40] for t in case["tree"][:6]], "order": case["order"]})
+        finally:
+            shutil.rmtree(base, ignore_errors=True)
+        return res
+
+
 class SingleFile(Part):
     name = "single_file_input"
     desc = "single input file: named output file only; output occupied by a directory is reported"
@@ -639,4 +676,4 @@ def json_key(d):
 
 
 def parts(tier, seed):
-    return [TreesPart(tier, seed), EntryPoints(tier, seed), SingleFile(tier, seed), RepeatedRuns(tier, seed), OptionValues(tier, seed)]
+    return [TreesPart(tier, seed), EntryPoints(tier, seed), SingleFile(tier, seed), RepeatedRuns(tier, seed), OptionValues(tier, seed), Names(tier, seed)]
